@@ -197,7 +197,35 @@ func cmdCheck(args []string) int {
 		opts.Workers = 5
 	}
 	tS := time.Now()
-	res := vc.SolveAll(all, opts)
+	// obligations that are generated but not claimed are only given a short time
+	var unclaimedEarly []*regexp.Regexp
+	for _, u := range plan.Unclaimed {
+		if re, err := regexp.Compile(u.Match); err == nil {
+			unclaimedEarly = append(unclaimedEarly, re)
+		}
+	}
+	var claimedObs, otherObs []*vc.Obligation
+	for _, ob := range all {
+		isU := false
+		for _, re := range unclaimedEarly {
+			if re.MatchString(ob.Name) {
+				isU = true
+			}
+		}
+		if isU {
+			otherObs = append(otherObs, ob)
+		} else {
+			claimedObs = append(claimedObs, ob)
+		}
+	}
+	res := vc.SolveAll(claimedObs, opts)
+	if len(otherObs) > 0 {
+		o2 := opts
+		o2.TimeoutSec, o2.FirstTimeout, o2.AllAgree = 4, 4, false
+		for ob, r := range vc.SolveAll(otherObs, o2) {
+			res[ob] = r
+		}
+	}
 	solveS := time.Since(tS).Seconds()
 
 	// aggregate by obligation name
